@@ -18,6 +18,11 @@
 //! through `syscall(SYS_read / SYS_write, ...)`.  The number of calls the armed descriptor received is
 //! counted.  The fast path (nothing armed) is one relaxed atomic load, so suites that never arm anything -
 //! including the multi-threaded ones - are unaffected.
+//!
+//! Crash containment: a transfer that never ends (e.g. a retry loop that keeps seeing a stale EINTR) would hang the
+//! run.  An armed descriptor that receives more than CALL_LIMIT calls in one arming ends the process with exit code
+//! 97 (deterministic, no timing); `watched` additionally ends it (code 98) when one case takes longer than 20 s.  The
+//! runner treats a dead harness as a failing case and names it (lib/runner.py, VMH_ANNOUNCE).
 use std::sync::atomic::{AtomicI32, AtomicU64, Ordering};
 use std::sync::Mutex;
 
@@ -74,11 +79,45 @@ pub fn with_script<T>(fd: i32, script: &[Beh], f: impl FnOnce() -> T) -> (Option
     (r, calls)
 }
 
+pub const CALL_LIMIT: u64 = 100_000;
+
+static CASE_STARTED_MS: AtomicU64 = AtomicU64::new(0);
+/// runs one case under a wall-clock watchdog (a hang must not stall the whole check)
+pub fn watched<T>(f: impl FnOnce() -> T) -> T {
+    static WD: std::sync::Once = std::sync::Once::new();
+    static T0: std::sync::OnceLock<std::time::Instant> = std::sync::OnceLock::new();
+    let t0 = *T0.get_or_init(std::time::Instant::now);
+    WD.call_once(|| {
+        std::thread::spawn(move || loop {
+            std::thread::sleep(std::time::Duration::from_millis(200));
+            let a = CASE_STARTED_MS.load(Ordering::SeqCst);
+            if a != 0 && t0.elapsed().as_millis() as u64 + 1 > a + 20_000 {
+                eprintln!("fdscript watchdog: case did not return within 20 s");
+                std::process::exit(98);
+            }
+        });
+    });
+    struct Reset;
+    impl Drop for Reset {
+        fn drop(&mut self) {
+            CASE_STARTED_MS.store(0, Ordering::SeqCst);
+        }
+    }
+    CASE_STARTED_MS.store(t0.elapsed().as_millis() as u64 + 1, Ordering::SeqCst);
+    let _reset = Reset; // also when the case panics (a malformed replay case)
+    f()
+}
+
 fn next_beh(fd: i32) -> Option<Beh> {
     if ARMED_FD.load(Ordering::Relaxed) != fd {
         return None;
     }
-    CALLS.fetch_add(1, Ordering::SeqCst);
+    if CALLS.fetch_add(1, Ordering::SeqCst) >= CALL_LIMIT {
+        // write(2) directly: this is inside the interposed read / write
+        let msg = b"fdscript: the scripted descriptor received more than 100000 calls in one operation - the transfer does not end\n";
+        unsafe { libc::syscall(libc::SYS_write, 2, msg.as_ptr(), msg.len()) };
+        std::process::exit(97);
+    }
     let mut s = SCRIPT.lock().unwrap_or_else(|e| e.into_inner());
     s.pop()
 }
